@@ -254,6 +254,12 @@ func c01One(o *kernel.Outcome, step int, ch *kernel.Chooser, alg jose.SignatureA
 		default:
 			c.claims["nonce"] = c.nonce
 		}
+	} else if ch.Bool(1, 6) {
+		// the verifier expects no nonce for this call (its hook answers ""), the token carries one (a token of another
+		// session replayed): the configured nonce requirement is "none", which such a token does not satisfy
+		c.claims["nonce"] = "nonce-of-another-session"
+		c.desc = append(c.desc, "nonce-unexpected")
+		o.Probe("token-with-a-nonce-nobody-expects")
 	}
 	if c.acrRequired != "" || ch.Bool(1, 5) {
 		c.claims["acr"] = []string{"gold", "silver", ""}[ch.Int(3)]
